@@ -844,9 +844,27 @@ const (
 	c17NIP11Upper = 400
 )
 
-func c17NIP11Script() []mocrelay.ClientMsg {
+func c17NIP11Script(variant int) []mocrelay.ClientMsg {
 	l3 := func(int) *int64 { return I64(3) }
 	l2 := func(int) *int64 { return I64(2) }
+	if variant == 1 {
+		// refusals first: a REQ that another limit refuses must not count against the subscription
+		// quota (the quota is over subscriptions that were opened), whatever the order of the chain
+		return []mocrelay.ClientMsg{
+			c17Sub(C17Req, "f3", c17Filters(3, nil)),   // 3 filters while no subscription is open
+			c17Sub(C17Req, "l3", c17Filters(1, l3)),    // limit 3 while no subscription is open
+			c17Sub(C17Count, "c1", c17Filters(1, nil)), // COUNT takes no slot
+			c17Sub(C17Req, "s1", c17Filters(1, nil)),
+			c17Sub(C17Req, "s2", c17Filters(2, l2)),  // second open subscription, both limits at their maximum
+			c17Sub(C17Req, "s3", c17Filters(1, nil)), // third
+			CloseMsg("f3"),                           // CLOSE of an id that was never opened frees nothing
+			c17Sub(C17Req, "s4", c17Filters(1, nil)),
+			CloseMsg("s2"),
+			c17Sub(C17Req, "g3", c17Filters(3, nil)), // another refused one, with a free slot …
+			c17Sub(C17Req, "s5", c17Filters(1, nil)), // … which this one takes
+			EventMsg(c17Event('5', 1, 0, 2, 2)),
+		}
+	}
 	return []mocrelay.ClientMsg{
 		c17Sub(C17Req, "s1", c17Filters(1, nil)),
 		c17Sub(C17Req, "s2", c17Filters(1, l2)),    // limit == max_limit
@@ -870,7 +888,7 @@ func c17NIP11Script() []mocrelay.ClientMsg {
 }
 
 // NIP11Chain: the chain built from a NIP-11 document around the replying stub.
-// params: doc (0 mask, 1 nil, 2 no limitation block), mask.
+// params: doc (0 mask, 1 nil, 2 no limitation block), mask, script (0 main, 1 refusals first).
 func NIP11Chain(h *vsched.H) {
 	docKind, mask := h.Param("doc", 0), h.Param("mask", 0)
 	scope := "NIP-11"
@@ -933,7 +951,8 @@ func NIP11Chain(h *vsched.H) {
 	add(4, C17MaxContentLength, c17NIP11Value)
 	add(5, C17CreatedAtLower, c17NIP11Lower)
 	add(6, C17CreatedAtUpper, c17NIP11Upper)
-	msgs, refs := c17NIP11Script(), c17NIP11Script()
+	variant := h.Param("script", 0)
+	msgs, refs := c17NIP11Script(variant), c17NIP11Script(variant)
 	open := map[string]bool{}
 	var items []*c17Item
 	for i, m := range msgs {
